@@ -37,6 +37,7 @@ def run(repo, rep):
 
     rep.run_borrowed(c03, {"C03-f": "C12-d"}, repo, only_sites=("extract_npu_subgraphs", "live_range"))
     rep.run_borrowed(c11, {"C11-b": "C12-a"}, repo, only_sites=("data_type",))
+    rule_round5(repo, rep)
     sw = repo.mod("stats_writer")
     got_get = any(isinstance(n_, ast.Call) and norm(n_.func) == "nng.memory_used.get" for n_ in ast.walk(sw.tree))
     got_arg = any(isinstance(n_, ast.Call) and any(norm(a_) == "nng.memory_used" for a_ in list(n_.args) + [k_.value for k_ in n_.keywords]) for n_ in ast.walk(sw.tree))
@@ -218,3 +219,29 @@ def rule_fuse(repo, rep):
     rep.check(order == abi, "C12-f", site, "operands are pushed to the front in reverse, giving [command stream, flash, scratch, scratch_fast, ...]",
               f"resulting operand order {order}: the driver binds operand 2 as the arena base and operand 3 as fast scratch by position")
     rep.floor("C12-f", 1)
+
+
+def rule_round5(repo, rep):
+    """(e) a pass's operands and results are marked live at the same time step (a CPU operator's result may not take the place of an
+    operand that operator still reads); (a) the summary converts bytes to KiB by true division."""
+    lr = repo.mod("live_range")
+    f = lr.func("extract_live_ranges_from_cascaded_passes")
+    loops = [l for l in ast.walk(f) if isinstance(l, ast.For) and "cascaded_passes" in str(norm(l.iter))]
+    if len(loops) != 1:
+        raise AnalysisError("extract_live_ranges_from_cascaded_passes: loop over the cascaded passes not found")
+    marks = [c for c in ast.walk(loops[0]) if isinstance(c, ast.Call) and isinstance(c.func, ast.Attribute) and c.func.attr == "mark_usage" and str(norm(c.func.value)) == "rng"]
+    if len(marks) < 2:
+        raise AnalysisError("extract_live_ranges_from_cascaded_passes: mark_usage calls not found")
+    args = {str(norm(c.args[0])) for c in marks if c.args}
+    rep.check(args == {"time_for_pass"}, "C12-e", "ethosu/vela/live_range.py:extract_live_ranges_from_cascaded_passes", "inputs, intermediates and outputs of a pass are all marked at the pass's own time (time_for_pass)",
+              f"marked at {sorted(args)}: the results of a CPU operator become live only after the clock has advanced, so the allocators may place a result over an operand that the operator is still reading")
+    sw = repo.mod("stats_writer")
+    n = 0
+    for q, fn in sw.functions.items():
+        for b in ast.walk(fn):
+            if isinstance(b, ast.BinOp) and isinstance(b.op, (ast.Div, ast.FloorDiv)) and "memory_used" in str(norm(b.left)) and str(norm(b.right)) in ("1024", "1024.0"):
+                n += 1
+                rep.check(isinstance(b.op, ast.Div), "C12-a", f"ethosu/vela/stats_writer.py:{q}", f"`{str(norm(b))[:70]}` converts bytes to KiB without truncation",
+                          "floor division: the reported figure is up to 1023 bytes below the plan's extent (small networks report 0 KiB)")
+    if n < 1:
+        raise AnalysisError("stats_writer: KiB conversions of memory_used not found")
